@@ -47,8 +47,11 @@ AsPaths ==
     a32   |-> << [t |-> "seq", as |-> <<65003, 65002>>] >>,
     a13   |-> << [t |-> "seq", as |-> <<65001, 65003>>] >>,
     s1    |-> << [t |-> "set", as |-> <<65001>>] >>,
-    a2e   |-> << [t |-> "seq", as |-> <<65002>>], [t |-> "seq", as |-> <<>>] >> ]   \* trailing empty segment (API input)
-ApNames == {"empty", "a1", "a21", "a32", "a13", "s1", "a2e"}
+    a2e   |-> << [t |-> "seq", as |-> <<65002>>], [t |-> "seq", as |-> <<>>] >>,   \* trailing empty segment (API input)
+    \* no AS_PATH attribute at all (a route injected through the API may lack it): it matches no pattern, and it has no
+    \* length that a length comparison could hold for
+    none  |-> <<>> ]
+ApNames == {"empty", "a1", "a21", "a32", "a13", "s1", "a2e", "none"}
 
 RECURSIVE FlatAs(_)
 FlatAs(q) == IF q = <<>> THEN <<>> ELSE Head(q).as \o FlatAs(Tail(q))
@@ -94,6 +97,7 @@ Holds(cd, r, lp, cm) ==
     [] cd.k = "aspath"    -> LET M(x) == PatMatch(x, AsPaths[r.ap]) IN SetOpt(cd.opt, AsPathSets[cd.set], M)
     [] cd.k = "community" -> LET M(x) == x \in cm IN SetOpt(cd.opt, CommSets[cd.set], M)
     [] cd.k = "aslen"     -> LET h == HopCount(AsPaths[r.ap]) IN
+                             r.ap # "none" /\
                              CASE cd.cmp = "eq" -> h = cd.n [] cd.cmp = "ge" -> h >= cd.n [] cd.cmp = "le" -> h <= cd.n
 
 \* ---- statements, policies ---------------------------------------------------
